@@ -14,7 +14,9 @@ R2  spec->code: TLC prints every reachable state with the exact answers of all o
     InverseTo with the specification's rationals, exactly (math/big.Rat).
 R3  code->spec: seeded random histories (50 calls, dimension <= 5, wider alphabets than R2) on a
     live mat.Cholesky are logged (arguments, ok flag, rounded ToSym and Det) and accepted or
-    rejected by TLC against CholTrace.tla, which reuses CholMachine's Target/Classify.
+    rejected by TLC against CholTrace.tla, which reuses CholMachine's Target/Classify; the same
+    for mat.LU (40 calls, dimension <= 4, RankOne in place or into an empty receiver; the logged
+    pivots decide, in LuTrace.tla, whether the update is representable).
     Static part (Planted.tla): integer least squares / minimum norm / square systems stated by
     their defining equations (Cramer on the Gram matrix), unimodular-style integer inverses,
     powers, determinants, and Hadamard-planted spectra for EigenSym / Eigen / SVD, replayed on
@@ -27,6 +29,9 @@ BUILDS_THOROUGH = [("default", ""), ("noasm", "noasm"), ("safe", "safe")]
 
 
 def run(ctx):
+    # the state spaces here are small (<= 10^4 states); cap the JVM heap so that several TLC processes in
+    # parallel (and other checks on the same machine) do not provoke the kernel's OOM killer
+    os.environ.setdefault("JAVA_TOOL_OPTIONS", "-Xmx3g")
     thorough = ctx.tier == "thorough"
     builds = BUILDS_THOROUGH if thorough else BUILDS_QUICK
     bins = {n: ctx.build(t) for n, t in builds}
@@ -82,24 +87,26 @@ def run(ctx):
                                                name="R2 replay planted instances [%s]" % bn))
     ctx.parallel(thunks, width=6)
 
-    # ---- R3: recorded random histories of the real Cholesky object, validated by TLC -------
+    # ---- R3: recorded random histories of the real objects, validated by TLC -----------------
+    import shutil
     nh = 200 if thorough else 40
     for bn, _ in builds:
-        tr = os.path.join(ctx.work, "chol-trace-%s.ndjson" % bn)
-        summ = ctx.record(bins[bn], "matfactor-chol", tr, ["hist=%d" % nh, "steps=50", "maxn=5"],
-                          name="R3 record Cholesky histories [%s]" % bn)
-        ok, st = ctx.validate("matfactor/CholTrace.tla", "matfactor/CholTrace.cfg", tr,
-                              name="R3 validate Cholesky histories [%s]" % bn)
-        if ok:
-            ctx.traces += summ.get("traces", 0)
-        else:
-            import shutil
-            keep = os.path.join(ctx.work, "..", "..", "replays", "C06")
-            os.makedirs(keep, exist_ok=True)
-            dst = os.path.abspath(os.path.join(keep, "chol-trace-%s-seed%d.ndjson" % (bn, ctx.seed)))
-            shutil.copy(tr, dst)
-            ctx.violation("matfactor:trace-rejected:cholesky:%s" % bn, st.get("detail", "")[:700],
-                          {"trace": dst, "build": bn, "spec": "matfactor/CholTrace.tla"})
+        for area, spec, what, extra in (("matfactor-chol", "matfactor/CholTrace.tla", "Cholesky", ["steps=50", "maxn=5"]),
+                                        ("matfactor-lu", "matfactor/LuTrace.tla", "LU", ["steps=40", "maxn=4"])):
+            tr = os.path.join(ctx.work, "%s-trace-%s.ndjson" % (what, bn))
+            summ = ctx.record(bins[bn], area, tr, ["hist=%d" % nh] + extra,
+                              name="R3 record %s histories [%s]" % (what, bn))
+            ok, st = ctx.validate(spec, spec.replace(".tla", ".cfg"), tr,
+                                  name="R3 validate %s histories [%s]" % (what, bn))
+            if ok:
+                ctx.traces += summ.get("traces", 0)
+            else:
+                keep = os.path.join(ctx.work, "..", "..", "replays", "C06")
+                os.makedirs(keep, exist_ok=True)
+                dst = os.path.abspath(os.path.join(keep, "%s-trace-%s-seed%d.ndjson" % (what, bn, ctx.seed)))
+                shutil.copy(tr, dst)
+                ctx.violation("matfactor:trace-rejected:%s:%s" % (what.lower(), bn), st.get("detail", "")[:700],
+                              {"trace": dst, "build": bn, "spec": spec})
 
     ctx.assumptions += [
         "TLC/SANY and the CommunityModules Json module are trusted",
@@ -124,6 +131,7 @@ def run(ctx):
 
 def replay(ctx, path):
     import json
+    os.environ.setdefault("JAVA_TOOL_OPTIONS", "-Xmx3g")
     d = json.load(open(path))["data"]
     if "trace" in d:
         ok, st = ctx.validate(d["spec"], d["spec"].replace(".tla", ".cfg"), d["trace"])
